@@ -20,6 +20,18 @@ EITHER zones (documented here, accepted by the oracles):
       same site (only possible with unknown / tied times): union may raise a LibraryError (mutation parent
       after child) or return; nothing else is asserted for such a case.
   E5  tables after a *failed* subset/union are not specified (the implementation clears them).
+  E6  node / mapping arrays of a dtype other than the documented int32 (and the int64 / uint32 always demanded
+      here): a TypeError is accepted, a result must be the right one.
+  E7  union(other=self): "another table collection" in the docs; refused with an error or equal to the reference
+      union of two equal collections.  Two nodes of other mapped to one node of self: memory safety only.
+  E8  union(check_shared_equality=False) when the shared parts really differ in what a shared node REFERS to
+      (its individual), or when the perturbed other is no valid tree sequence: memory safety only.
+  E9  top-level metadata / reference sequence of other differing from self's are never generated (the docs do
+      not say whether they belong to the "shared portion"); self and other always carry the same ones.
+
+Audit (lib/props/AUDIT-C14.md): entry points and call forms, array forms, > 256 / > 65535 rows per table,
+> 64 KiB ragged entries, schemas and top-level data, second call on the produced object, more refusal kinds,
+bad node mappings, union(other=self), law with add_populations=False.  Helpers in lib/props/c14_ext.py.
 """
 import json
 
@@ -28,6 +40,7 @@ import tskit
 from lib import gen
 from lib.harness import case_rng
 from lib.model import NULL, forest, mutation_parents
+from lib.props import c14_ext as ext
 from lib.tsk import from_tables, to_tables
 
 ID = "C14"
@@ -105,11 +118,12 @@ def ref_subset(m, nodes, reorder_populations=True, remove_unreferenced=True, ind
     node_map = {old: new for new, old in enumerate(nodes)}
     # individuals
     referenced = []
+    refset = set()
     for u in nodes:
         i = m.nodes[u][3]
-        if i != NULL and i not in referenced:
+        if i != NULL and i not in refset:
+            refset.add(i)
             referenced.append(i)
-    refset = set(referenced)
     n_ind = len(m.individuals)
     others = [i for i in range(n_ind) if i not in refset]
     if remove_unreferenced:
@@ -141,12 +155,14 @@ def ref_subset(m, nodes, reorder_populations=True, remove_unreferenced=True, ind
         pops = list(range(n_pop))
     else:
         pops = []
+        pset = set()
         for u in nodes:
             p = m.nodes[u][2]
-            if p != NULL and p not in pops:
+            if p != NULL and p not in pset:
+                pset.add(p)
                 pops.append(p)
         if not remove_unreferenced:
-            pops = pops + [p for p in range(n_pop) if p not in pops]
+            pops = pops + [p for p in range(n_pop) if p not in pset]
     pop_map = {old: new for new, old in enumerate(pops)}
     out.populations = [m.populations[p] for p in pops]
     # nodes
@@ -485,18 +501,71 @@ def read_back(tc):
 
 
 # =========================================================================== workload
+#
+# Families (k % 10): subset 5, union 3, law 2.  Inside each family a FIXED share of the cases (decided by the
+# case index, not by chance) goes to the structurally extreme / alternative-entry-point modes, so that a loaded
+# machine that only gets through a few thousand cases still sees every mode:
+#   big    every table > 256 rows, > 256 children, one individual on > 256 nodes      (lib/props/c14_ext.py)
+#   wide   single ragged entries > 64 KiB, one individual with > 256 parents
+#   huge   every table > 65535 rows (numpy reference)
+#   chain  a second subset / union on the SAME object that the first call produced
+#   ll     the low-level _tskit.TableCollection entry points (no sort, no provenance)
+#   alias  union(other=self)      badmap  node_mapping that is not a mapping into self
+
+
+def _subset_mode(j):
+    if j % 120 == 7:
+        return "big"
+    if j % 40 == 23:
+        return "wide"
+    if j % 900 == 11:
+        return "huge"
+    if j % 10 == 3:
+        return "chain"
+    if j % 8 == 1:
+        return "ll"
+    return "std"
+
+
+def _union_mode(j):
+    if j % 150 == 4:
+        return "big"
+    if j % 40 == 13:
+        return "wide"
+    if j % 60 == 9:
+        return "alias"
+    if j % 20 == 6:
+        return "badmap"
+    if j % 10 == 2:
+        return "chain"
+    if j % 8 == 5:
+        return "ll"
+    return "std"
+
+
+def _law_mode(j):
+    if j % 100 == 3:
+        return "big"
+    if j % 800 == 17:
+        return "huge"
+    if j % 6 == 1:
+        return "ll"
+    return "std"
 
 
 def cases(tier, seed):
     n = 60000 if tier == "quick" else 3000000
     for k in range(n):
-        r = k % 10
+        r, q = k % 10, k // 10
         if r < 5:
-            yield {"gen": "subset", "k": k}
+            c, mode = {"gen": "subset", "k": k}, _subset_mode(q * 5 + r)
         elif r < 8:
-            yield {"gen": "union", "k": k}
+            c, mode = {"gen": "union", "k": k}, _union_mode(q * 3 + r - 5)
         else:
-            yield {"gen": "law", "k": k}
+            c, mode = {"gen": "law", "k": k}, _law_mode(q * 2 + r - 8)
+        if mode != "std":
+            c["mode"] = mode
+        yield c
 
 
 def msprime_model(rng, migrations=False, mutations=True):
@@ -549,6 +618,20 @@ def base_model(rng, big=False, tier="quick"):
     return m
 
 
+def mode_model(rng, case, ctx, p_big):
+    """The input model of a case: a structurally extreme one in the big / wide modes."""
+    mode = case.get("mode", "std")
+    if mode == "big":
+        m = ext.big_model(rng)
+        ctx.feature("big-instance(>256 rows per table)")
+        return m
+    m = base_model(rng, big=rng.random() < p_big, tier=case["tier"])
+    if mode == "wide":
+        for w in sorted(ext.widen(rng, m)):
+            ctx.feature("wide:" + w)
+    return m
+
+
 def run_case(case, ctx):
     g = case["gen"]
     if g == "subset":
@@ -561,13 +644,43 @@ def run_case(case, ctx):
         raise ValueError(g)
 
 
+def _short(lst, n=60):
+    lst = list(lst)
+    return str(lst) if len(lst) <= n else f"{str(lst[:n])[:-1]}, ... {len(lst)} ids]"
+
+
+def _detail(m, **kw):
+    """Violation detail: the model as JSON unless it is enormous (wide / big instances stay replayable through
+    the case descriptor; the message carries the differing row)."""
+    d = dict(kw)
+    j = m.to_json()
+    if len(m.nodes) <= 64 and sum(len(str(r)) for t in ("nodes", "edges", "sites", "mutations", "individuals",
+                                                           "populations") for r in getattr(m, t)) < 20000:
+        d["model"] = j
+    else:
+        d["model"] = f"<{len(m.nodes)} nodes, {len(m.edges)} edges: replay the case>"
+    return d
+
+
+CALL_ERRORS = LIBERR + (ValueError, OverflowError, TypeError)
+
+
+def check_top(ctx, key, before, res, what):
+    """subset / union change table rows (and append provenance), nothing else: table metadata schemas, top-level
+    metadata and its schema, time_units, the reference sequence and the sequence length stay."""
+    ctx.count(key.split("/")[0].split("-")[0] + ":top-level-kept")
+    dd = ext.snapshot_diff(before, ext.top_snapshot(res))
+    if dd:
+        ctx.violation(f"{key}/top-level", f"{what} changed data outside the table rows: {dd[:3]}")
+
+
 # --------------------------------------------------------------------------- subset
 
 
 def node_list(rng, m):
     n = len(m.nodes)
     kind = rng.choice(["random", "random", "random", "all", "all-perm", "reverse", "empty", "non-samples",
-                       "samples", "single", "dups", "oob"])
+                       "samples", "single", "dups", "oob", "all-but-one", "stride"])
     ids = list(range(n))
     if kind == "random":
         lst = rng.sample(ids, rng.randint(0, n))
@@ -586,13 +699,21 @@ def node_list(rng, m):
         lst = [u for u in ids if m.is_sample(u)]
         rng.shuffle(lst)
     elif kind == "single":
-        lst = [rng.randrange(n)]
+        lst = [rng.choice([0, n - 1, rng.randrange(n)])]
+    elif kind == "all-but-one":
+        lst = ids[:]
+        del lst[rng.choice([0, n - 1, rng.randrange(n)])]
+    elif kind == "stride":
+        step = rng.choice([2, 3, -1, -2])
+        lst = ids[::step] if step > 0 else ids[::-1][::-step]
     elif kind == "dups":
         lst = rng.sample(ids, rng.randint(1, n))
         lst.insert(rng.randint(0, len(lst)), rng.choice(lst))
     else:
         lst = rng.sample(ids, rng.randint(0, n))
-        lst.insert(rng.randint(0, len(lst)), rng.choice([n, n + 5, -1, -2, 2 ** 31 - 1]))
+        # (2 ** 32 + a valid id would pass as that id after a wrapping cast to int32)
+        lst.insert(rng.randint(0, len(lst)), rng.choice([n, n, n + 5, -1, -2, 2 ** 31 - 1, -2 ** 31, 2 ** 31, 2 ** 32,
+                                                         2 ** 32 + n - 1, -2 ** 32]))
     return kind, lst
 
 
@@ -615,26 +736,104 @@ def check_provenance(ctx, key, before, after, record, command, extra=None):
         ok = False
         params = repr(e)
     if not ok:
-        ctx.violation(f"{key}/provenance-record", f"provenance record parameters {params} expected command "
-                                                   f"{command} {extra}")
+        ctx.violation(f"{key}/provenance-record", f"provenance record parameters {str(params)[:600]} expected command "
+                                                   f"{command} {str(extra)[:600]}")
+
+
+def do_subset(rng, variant, tc, arg, record, reorder, remove, src_ts=None):
+    """One subset call through the chosen entry point.  Returns (form tag, result tables, result ts, source ts,
+    error)."""
+    tag = rng.choice(ext.SUBSET_FORMS[variant])
+    res_ts = None
+    try:
+        if variant == "ts":
+            if src_ts is None:
+                src_ts = tc.tree_sequence()
+            res_ts = ext.subset_call(rng, tag, "ts", src_ts, arg, record, reorder, remove)
+            res = res_ts.dump_tables()
+        elif variant == "ll":
+            ext.subset_call(rng, tag, "ll", tc._ll_tables, arg, None, reorder, remove)
+            res = tc
+        else:
+            ext.subset_call(rng, tag, "tables", tc, arg, record, reorder, remove)
+            res = tc
+        return tag, res, res_ts, src_ts, None
+    except CALL_ERRORS as e:
+        return tag, None, None, src_ts, e
+
+
+def check_subset_result(ctx, key, res, src, lst, reorder, remove, variant, record, top_before, detail,
+                        scrambled=False):
+    """Compare the tables `res` produced by one subset call with the reference applied to the model `src`.
+    Returns the model read back when everything agreed, else None."""
+    what = (f"subset({_short(lst)}, reorder_populations={reorder}, remove_unreferenced={remove}) "
+            f"[{variant}/{detail.get('call_form')}/{detail.get('nodes_form')}]")
+    got, bad = read_back(res)
+    ctx.count("subset:ref")
+    if bad:
+        ctx.violation(f"{key}/broken-offsets", f"{what}: ragged columns broken {bad}", detail)
+        return None
+    if variant == "ll":
+        # tsk_table_collection_subset (C documentation): nodes in the listed order, populations in first-seen
+        # order, retained individuals / edges / mutations / sites in their original order; no sorting
+        ctx.count("subset:ll-exact-order")
+        exp = ref_subset(src, lst, reorder, remove)
+        d = ext.diff_exact(mask_individuals(got), mask_individuals(exp))
+        d += [("individuals", x) for x in compare_individuals(got, src, lst, remove)]
+    else:
+        exp = ref_sort(ref_subset(src, lst, reorder, remove))
+        d = diff_subset(got, src, lst, exp, remove)
+    ctx.count("subset:index-consistent")
+    msg = stale_index(res)
+    if msg:
+        ctx.violation(f"{key}/stale-index", f"{what}: {msg}", detail)
+    for name, msg in d[:3]:
+        ctx.violation(f"{key}/{name}", f"{what} {name}: {msg}", detail)
+    if variant == "ll":
+        check_provenance(ctx, key, src.provenances, got.provenances, False, "subset")
+    else:
+        check_provenance(ctx, key, src.provenances, got.provenances, record, "subset", {"nodes": list(lst)})
+    check_top(ctx, key, top_before, res, what)
+    if d:
+        return None
+    if variant == "ll" and not scrambled:
+        # sorting the low-level result gives what the Python method documents
+        ctx.count("subset:ll-then-sort")
+        res.sort()
+        g2 = from_tables(res)
+        for name, msg in diff_subset(g2, src, lst, ref_sort(exp), remove)[:2]:
+            ctx.violation(f"{key}/ll-sorted/{name}", f"{what} followed by sort(): {name}: {msg}", detail)
+        got = g2
+    if variant != "ts" and not scrambled:
+        # the result of subsetting a valid tree sequence loads
+        ctx.count("subset:loads")
+        try:
+            res.tree_sequence()
+        except LIBERR as e:
+            ctx.violation(f"{key}/result-does-not-load", f"{what} result rejected: {e}", detail)
+    return got
 
 
 def run_subset(case, ctx):
     rng = case_rng(case)
-    m = base_model(rng, big=rng.random() < 0.15, tier=case["tier"])
+    mode = case.get("mode", "std")
+    if mode == "huge":
+        return run_subset_huge(case, ctx, rng)
+    m = mode_model(rng, case, ctx, 0.15)
     kind, lst = node_list(rng, m)
     reorder = rng.random() < 0.5
     remove = rng.random() < 0.5
     record = rng.random() < 0.5
-    variant = rng.choice(["tables", "ts"])
+    variant = "ll" if mode == "ll" else rng.choice(["tables", "ts"])
     scrambled = False
-    if variant == "tables" and kind not in ("dups", "oob") and rng.random() < 0.15:
+    if variant != "ts" and kind not in ("dups", "oob") and rng.random() < 0.15:
         # TableCollection.subset needs referential integrity only: also feed unsorted rows
         from lib.props.c07 import scramble
         m = scramble(rng, m, nodes_fixed=True)
         scrambled = True
     ctx.feature(f"subset:{kind}")
     ctx.feature(f"subset:{variant}")
+    ctx.feature(f"subset:mode:{mode}")
     ctx.feature(f"subset:reorder={int(reorder)},remove={int(remove)}")
     if scrambled:
         ctx.feature("subset:scrambled-input")
@@ -642,35 +841,21 @@ def run_subset(case, ctx):
         ctx.feature(t)
     nontrivial = kind not in ("dups", "oob", "empty") and len(lst) > 0 and (len(m.edges) > 0 or len(m.mutations) > 0)
     _sig(ctx, case, ("subset", m.signature(), tuple(lst), reorder, remove, variant), nontrivial=nontrivial)
-    if case["k"] < 20:
+    if case["k"] < 20 and mode in ("std", "ll", "chain"):
         ctx.sample({"case": case, "nodes": lst, "reorder_populations": reorder, "remove_unreferenced": remove,
                     "variant": variant, "model": m.to_json()})
-    detail = {"model": m.to_json(), "nodes": lst, "reorder_populations": reorder,
-              "remove_unreferenced": remove, "variant": variant, "record_provenance": record}
     tc = to_tables(m, with_index=(not scrambled and rng.random() < 0.5))
-    arg = lst
-    if lst and rng.random() < 0.3:
-        import numpy as np
-        arg = np.array(lst, dtype=rng.choice([np.int32, np.int64, np.uint32 if min(lst) >= 0 else np.int64]))
-        ctx.feature("subset:numpy-node-list")
-    kw = dict(record_provenance=record, reorder_populations=reorder, remove_unreferenced=remove)
-    if rng.random() < 0.5:
-        # documented defaults: record_provenance=True, reorder_populations=True, remove_unreferenced=True
-        kw = {k: v for k, v in kw.items() if not v}
-        ctx.feature("subset:defaults-omitted")
-    src_ts = None
-    try:
-        if variant == "ts":
-            src_ts = tc.tree_sequence()
-            res = src_ts.subset(arg, **kw).dump_tables()
-        else:
-            res = tc
-            res.subset(arg, **kw)
-        err = None
-    except LIBERR as e:
-        err = e
-    except (ValueError, OverflowError, TypeError) as e:
-        err = e
+    decorated = rng.random() < 0.35
+    if decorated:
+        ext.decorate_top(tc, ext.top_params(rng))
+        ctx.feature("subset:schemas/top-level-data-present")
+    top_before = ext.top_snapshot(tc)
+    nodes_form, arg = ext.id_array_form(rng, lst, lowlevel=(variant == "ll"))
+    ctx.feature(f"subset:nodes-as:{nodes_form}")
+    tag, res, res_ts, src_ts, err = do_subset(rng, variant, tc, arg, record, reorder, remove)
+    ctx.feature(f"subset:call:{tag}")
+    detail = _detail(m, nodes=lst, reorder_populations=reorder, remove_unreferenced=remove, variant=variant,
+                     record_provenance=record, call_form=tag, nodes_form=nodes_form, decorated=decorated)
     if kind == "oob":
         ctx.count("subset:out-of-range-rejected")
         if err is None:
@@ -680,39 +865,98 @@ def run_subset(case, ctx):
     if kind == "dups":
         ctx.count("subset:duplicates(either)")  # E3
         return
+    if isinstance(err, TypeError) and nodes_form not in ext.STRICT_FORMS:
+        # only list / int32 arrays are documented; int64 / uint32 arrays have always been demanded here
+        ctx.count("subset:exotic-node-array-refused(either)")
+        return
     if err is not None:
-        ctx.violation("subset/raised", f"subset({lst}, {kw}) raised {type(err).__name__}: {err}", detail)
+        ctx.violation("subset/raised", f"subset({_short(lst)} as {nodes_form}, reorder_populations={reorder}, "
+                                       f"remove_unreferenced={remove}) [{variant}/{tag}] raised "
+                                       f"{type(err).__name__}: {err}", detail)
         return
-    got, bad = read_back(res)
-    ctx.count("subset:ref")
-    if bad:
-        ctx.violation("subset/broken-offsets", f"subset({lst}, {kw}): ragged columns broken {bad}", detail)
-        return
-    exp = ref_sort(ref_subset(m, lst, reorder, remove))
-    d = diff_subset(got, m, lst, exp, remove)
-    ctx.count("subset:index-consistent")
-    msg = stale_index(res)
-    if msg:
-        ctx.violation("subset/stale-index", f"subset({lst}, {kw}) [{variant}]: {msg}", detail)
-    for name, msg in d[:3]:
-        ctx.violation(f"subset/{name}", f"subset({lst}, reorder_populations={reorder}, remove_unreferenced={remove}) "
-                                        f"[{variant}] {name}: {msg}", detail)
-    check_provenance(ctx, "subset", m.provenances, got.provenances, record, "subset", {"nodes": lst})
-    if (got.metadata, got.time_units) != (m.metadata, m.time_units):
-        ctx.violation("subset/top-level", f"top-level metadata/time_units changed: {got.metadata, got.time_units}")
+    got = check_subset_result(ctx, "subset", res, m, lst, reorder, remove, variant, record, top_before, detail,
+                              scrambled=scrambled)
     if variant == "ts":
         # the source tree sequence is immutable
         ctx.count("subset:source-unchanged")
         if from_tables(src_ts.dump_tables()).signature() != m.signature():
             ctx.violation("subset/source-modified", "TreeSequence.subset changed its source", detail)
-    elif not d:
-        # the result of subsetting a valid tree sequence loads
-        ctx.count("subset:loads")
-        try:
-            res.tree_sequence()
-        except LIBERR as e:
-            if not scrambled:
-                ctx.violation("subset/result-does-not-load", f"subset({lst}, {kw}) result rejected: {e}", detail)
+    if got is None or mode != "chain":
+        return
+    # ---- the same object again (d): a second subset of the result; for a tree sequence also the first call again
+    ctx.count("subset:chain")
+    n1 = len(got.nodes)
+    l2 = rng.sample(range(n1), rng.randint(0, n1)) if rng.random() < 0.7 else rng.sample(range(n1), n1)
+    reorder2, remove2, record2 = rng.random() < 0.5, rng.random() < 0.5, rng.random() < 0.5
+    form2, arg2 = ext.id_array_form(rng, l2, lowlevel=(variant == "ll"))
+    top2 = ext.top_snapshot(res)
+    if variant == "ts":
+        tag2, res2, _, _, err2 = do_subset(rng, "ts", None, arg2, record2, reorder2, remove2, src_ts=res_ts)
+    else:
+        tag2, res2, _, _, err2 = do_subset(rng, variant, res, arg2, record2, reorder2, remove2)
+    detail2 = _detail(got, nodes=l2, reorder_populations=reorder2, remove_unreferenced=remove2, variant=variant,
+                      record_provenance=record2, call_form=tag2, nodes_form=form2, first_call=detail)
+    if isinstance(err2, TypeError) and form2 not in ext.STRICT_FORMS:
+        ctx.count("subset:exotic-node-array-refused(either)")
+    elif err2 is not None:
+        ctx.violation("subset-chain/raised", f"second subset({_short(l2)}) of the object produced by "
+                                             f"subset({_short(lst)}) raised {type(err2).__name__}: {err2}", detail2)
+    else:
+        check_subset_result(ctx, "subset-chain", res2, got, l2, reorder2, remove2, variant, record2, top2,
+                            detail2, scrambled=scrambled)
+    if variant == "ts":
+        ctx.count("subset:same-source-again")
+        _, res3, _, _, err3 = do_subset(rng, "ts", None, arg, record, reorder, remove, src_ts=src_ts)
+        if err3 is not None or from_tables(res3).signature() != from_tables(res).signature():
+            ctx.violation("subset-chain/second-call-differs", f"the same subset({_short(lst)}) of the same tree "
+                                                              f"sequence gave another result the second time "
+                                                              f"({err3})", detail)
+
+
+def run_subset_huge(case, ctx, rng):
+    """Every table > 65535 rows, raw numpy columns in, raw numpy columns compared (E1 x E2 candidates)."""
+    import numpy as np
+    g = np.random.default_rng(rng.getrandbits(63))
+    c = ext.huge_columns(g)
+    N = len(c["nodes"]["time"])
+    drop = int(g.integers(0, 300)) if rng.random() < 0.7 else N // 2
+    lst = g.permutation(N)[:N - drop]
+    reorder, remove = rng.random() < 0.5, rng.random() < 0.5
+    ctx.feature("subset:mode:huge")
+    ctx.feature(f"subset:huge:reorder={int(reorder)},remove={int(remove)},{'few' if drop < 300 else 'half'}-dropped")
+    _sig(ctx, case, ("subset-huge", N, drop, reorder, remove, int(lst[0])), nontrivial=True)
+    tc = ext.columns_to_tables(c)
+    form = rng.choice(["np-int32", "np-int64", "list"])
+    arg = lst.astype(np.int32) if form == "np-int32" else (lst if form == "np-int64" else [int(x) for x in lst])
+    what = (f"subset(<{len(lst)} of {N} nodes as {form}, numpy seed from case>, reorder_populations={reorder}, "
+            f"remove_unreferenced={remove}) on tables with > 65535 rows each")
+    try:
+        tc.subset(arg, record_provenance=False, reorder_populations=reorder, remove_unreferenced=remove)
+    except CALL_ERRORS as e:
+        ctx.violation("subset-huge/raised", f"{what} raised {type(e).__name__}: {e}")
+        return
+    ctx.count("subset:huge-ref")
+    bad = ext.bad_offsets_np(tc)
+    if bad:
+        ctx.violation("subset-huge/broken-offsets", f"{what}: ragged columns broken {bad}")
+        return
+    exp, cands = ext.np_ref_subset(c, lst, reorder, remove)
+    gotcols = {name: ext.table_columns(tc, name) for name in ext.FIXED_COLS}
+    for name in ("nodes", "edges", "sites", "mutations", "populations"):
+        msg = ext.columns_diff(gotcols[name], exp[name], name)
+        if msg:
+            ctx.violation(f"subset-huge/{name}", f"{what}: {msg}")
+    best = None
+    for lname, rows, node_ind in cands:
+        msg = ext.columns_diff(gotcols["individuals"], rows, "individuals") or \
+            ext.columns_diff(gotcols["nodes"], {"individual": node_ind}, "nodes")
+        if msg is None:
+            ctx.feature("subset:huge:individual-layout:" + lname.split("/")[0])
+            best = None
+            break
+        best = best or f"(layout {lname}) {msg}"
+    if best:
+        ctx.violation("subset-huge/individuals", f"{what}: no accepted individual layout matches, e.g. {best}")
 
 
 # --------------------------------------------------------------------------- union
@@ -743,14 +987,17 @@ def split_for_union(rng, m, independent=False):
     return S, X, Y
 
 
-PERTURB = ("node-metadata", "node-flags", "edge-removed", "edge-metadata", "edge-interval",
-           "mutation-derived", "mutation-metadata", "site-ancestral", "site-metadata", "individual-flags",
-           "individual-metadata", "individual-location", "population-metadata")
+PERTURB = ("node-metadata", "node-flags", "node-time", "node-population", "node-individual", "edge-removed",
+           "edge-metadata", "edge-interval", "mutation-derived", "mutation-metadata", "mutation-time",
+           "mutation-added", "site-ancestral", "site-metadata", "site-position", "individual-flags",
+           "individual-metadata", "individual-location", "individual-parents", "population-metadata")
 
 
 def perturb_shared(rng, om, shared_ids):
-    """Change one datum of the shared portion of `other` (om: model; shared_ids: its shared node ids).
-    Returns (kind, model) or None when no such datum exists."""
+    """Change one datum of the shared portion of `other` (om: model; shared_ids: its shared node ids) in a way
+    that stays visible when the shared portion is extracted with subset.  Returns (kind, model) or None when no
+    such datum exists.  The perturbed collection keeps referential integrity; it may stop being a valid tree
+    sequence (node-time, mutation-time, site-position): the caller then uses the TableCollection entry point."""
     sh = set(shared_ids)
     kinds = list(PERTURB)
     rng.shuffle(kinds)
@@ -761,8 +1008,28 @@ def perturb_shared(rng, om, shared_ids):
             fl, t, p, i, md = o.nodes[u]
             if kind == "node-metadata":
                 md = flip(rng, md)
+            elif kind == "node-flags":
+                fl ^= 1 << rng.choice([0, 1, 5, 20, 31])
+            elif kind == "node-time":
+                t = t + rng.choice([0.125, -0.125, 1.0, 2.0 ** -40 * max(1.0, abs(t))])
+            elif kind == "node-population":
+                # (ids are relabelled by the comparison: only a population with OTHER CONTENT, or NULL, differs)
+                row = None if p == NULL else o.populations[p]
+                cand = [x for x in [NULL] + list(range(len(o.populations)))
+                        if (None if x == NULL else o.populations[x]) != row]
+                if not cand:
+                    continue
+                p = rng.choice(cand)
             else:
-                fl ^= 1 << rng.choice([1, 5, 20])
+                row = None if i == NULL else (o.individuals[i][0], o.individuals[i][1], o.individuals[i][3])
+                cand = [x for x in [NULL] + list(range(len(o.individuals)))
+                        if (None if x == NULL else (o.individuals[x][0], o.individuals[x][1],
+                                                    o.individuals[x][3])) != row]
+                if not cand:
+                    continue
+                i = rng.choice(cand)
+            if (fl, t, p, i, md) == o.nodes[u]:
+                continue
             o.nodes[u] = (fl, t, p, i, md)
             return kind, o
         if kind.startswith("edge"):
@@ -789,12 +1056,32 @@ def perturb_shared(rng, om, shared_ids):
                 o.mutations[k] = (s, u, d + "X", p, t, md)
             elif kind == "mutation-metadata":
                 o.mutations[k] = (s, u, d, p, t, flip(rng, md))
+            elif kind == "mutation-time":
+                if t is None:
+                    continue
+                o.mutations[k] = (s, u, d, p, t + rng.choice([0.0625, -0.0625]), md)
+            elif kind == "mutation-added":
+                # one more mutation on a shared node, after the last mutation of the site
+                last = max(x for x, mu in enumerate(o.mutations) if mu[0] == s)
+                t2 = o.mutations[last][4]
+                row = (s, u, "N", NULL, None if t2 is None else o.nodes[u][1], b"+")
+                o.mutations = [(a, b, c_, (pp + 1 if pp > last else pp), e, f)
+                               for a, b, c_, pp, e, f in o.mutations]
+                o.mutations.insert(last + 1, row)
             elif kind == "site-ancestral":
                 pos, a, smd = o.sites[s]
                 o.sites[s] = (pos, a + "Q", smd)
-            else:
+            elif kind == "site-metadata":
                 pos, a, smd = o.sites[s]
                 o.sites[s] = (pos, a, flip(rng, smd))
+            else:
+                pos, a, smd = o.sites[s]
+                taken = {x[0] for x in o.sites}
+                cand = [q for q in (pos + 2.0 ** -10, pos / 2 + 2.0 ** -12, (pos + o.L) / 2) if 0 <= q < o.L
+                        and q not in taken]
+                if not cand:
+                    continue
+                o.sites[s] = (rng.choice(cand), a, smd)
             return kind, o
         if kind.startswith("individual"):
             inds = sorted({o.nodes[u][3] for u in sh if o.nodes[u][3] != NULL})
@@ -806,8 +1093,10 @@ def perturb_shared(rng, om, shared_ids):
                 fl ^= 1 << rng.choice([0, 3, 17])
             elif kind == "individual-metadata":
                 md = flip(rng, md)
-            else:
+            elif kind == "individual-location":
                 loc = loc + (1.5,)
+            else:
+                par = par + (NULL,)      # a NULL parent survives every subset (E2 concerns non-NULL ones)
             o.individuals[i] = (fl, loc, par, md)
             return kind, o
         if kind == "population-metadata":
@@ -828,118 +1117,351 @@ def flip(rng, b):
     return b[:j] + bytes([b[j] ^ (1 << rng.randrange(8))]) + b[j + 1:]
 
 
-def call_union(variant, stc, otc, mapping, kw, as_array=False):
-    """Returns (result tables or None, error or None)."""
-    if as_array and mapping:
-        import numpy as np
-        mapping = np.array(mapping, dtype=np.int64 if as_array == 2 else np.int32)
+def do_union(rng, variant, stc, otc, marg, check, add_pops, record, sts=None, ots=None, tag=None):
+    """One union call through the chosen entry point.  Returns (form tag, result tables, result ts, error)."""
+    if tag is None:
+        tag = rng.choice(ext.UNION_FORMS["ll" if variant == "ll" else "py"])
     try:
         if variant == "ts":
-            sts = stc.tree_sequence()
-            ots = otc.tree_sequence()
-            return sts.union(ots, mapping, **kw).dump_tables(), None
-        stc.union(otc, mapping, **kw)
-        return stc, None
+            sts = stc.tree_sequence() if sts is None else sts
+            ots = otc.tree_sequence() if ots is None else ots
+            res_ts = ext.union_call(rng, tag, "ts", sts, ots, marg, check, add_pops, record)
+            return tag, res_ts.dump_tables(), res_ts, None
+        if variant == "ll":
+            ext.union_call(rng, tag, "ll", stc._ll_tables, otc._ll_tables, marg, check, add_pops, None)
+        else:
+            ext.union_call(rng, tag, "tables", stc, otc, marg, check, add_pops, record)
+        return tag, stc, None, None
+    except CALL_ERRORS as e:
+        return tag, None, None, e
+
+
+def individual_sharing(om, mapping):
+    """(some individual of `other` owns a shared and a new node, ... and its first node in other is a new one)"""
+    kinds = {}
+    for k, nd in enumerate(om.nodes):
+        if nd[3] != NULL:
+            kinds.setdefault(nd[3], []).append(mapping[k] == NULL)
+    both = [i for i, v in kinds.items() if any(v) and not all(v)]
+    return bool(both), any(kinds[i][0] for i in both)
+
+
+def check_union_result(ctx, key, res, sm, om, mapping, add_pops, check_shared, variant, record, top_before,
+                       detail, what):
+    """Compare the tables `res` of one union call with the reference union of the models sm, om.  Returns the
+    model read back when everything agreed (None otherwise, and also None in the EITHER zone E4)."""
+    exp, either = ref_union(sm, om, mapping, add_populations=add_pops)
+    got, bad = read_back(res)
+    if bad:
+        ctx.count("union:ref")
+        ctx.violation(f"{key}/broken-offsets", f"{what}: ragged columns broken {bad}", detail)
+        return None
+    check_top(ctx, key, top_before, res, what)
+    if either:
+        # E4: the documented sort does not put a parent mutation first; union may raise or return, and mutation
+        # rows are not decided.  Everything that does not depend on the mutation order still is.
+        ctx.count("union:either-zone-parent-order")
+        ctx.count("union:either-zone-other-tables")
+        for cand in (exp, ref_union(sm, om, mapping, add_populations=add_pops, parent_mode="drop")[0]):
+            d = diff_models(got, cand, tables=("nodes", "edges", "sites", "individuals", "populations"))
+            if not d:
+                break
+        strip = lambda mm: _msorted([(s, u, d_, t, md) for s, u, d_, p, t, md in mm.mutations])  # noqa: E731
+        if not d and strip(got) != strip(exp):
+            d = [("mutations", "row multiset (parents aside) differs: " + _first_diff(strip(got), strip(exp)))]
+        for name, msg in d[:3]:
+            ctx.violation(f"{key}/{name}", f"{what} {name}: {msg}", detail)
+        return None
+    ctx.count("union:ref")
+    ctx.count("union:index-consistent")
+    msg = stale_index(res)
+    if msg:
+        ctx.violation(f"{key}/stale-index", f"{what}: {msg}", detail)
+    cands = [exp, ref_union(sm, om, mapping, add_populations=add_pops, parent_mode="drop")[0]]
+    d = best_match(got, cands)
+    for name, msg in d[:3]:
+        ctx.violation(f"{key}/{name}", f"{what} {name}: {msg}", detail)
+    if variant == "ll":
+        check_provenance(ctx, key, sm.provenances, got.provenances, False, "union")
+    else:
+        check_provenance(ctx, key, sm.provenances, got.provenances, record, "union", {"node_mapping": list(mapping)})
+    if d:
+        return None
+    ctx.count("union:loads")
+    try:
+        res.tree_sequence()
     except LIBERR as e:
-        return None, e
+        ctx.violation(f"{key}/result-does-not-load", f"{what}: result rejected: {e}", detail)
+    return got
+
+
+BAD_MAPS = ("too-large", "too-large", "below-null", "too-short", "too-long", "not-int32", "dup-target")
 
 
 def run_union(case, ctx):
     rng = case_rng(case)
-    m = base_model(rng, big=rng.random() < 0.15, tier=case["tier"])
+    mode = case.get("mode", "std")
+    m = mode_model(rng, case, ctx, 0.15)
     S, X, Y = split_for_union(rng, m)
     add_pops = rng.random() < 0.5
     check_shared = rng.random() < 0.6
     record = rng.random() < 0.5
-    variant = rng.choice(["tables", "ts"])
+    variant = "ll" if mode == "ll" else rng.choice(["tables", "ts"])
     self_list = S + X
     other_list = S + Y
     rng.shuffle(self_list)
     rng.shuffle(other_list)
+    if S and Y and m.individuals and rng.random() < 0.3:
+        # FORCED (f): one individual owns a shared and a new node, and the new node comes first in `other`
+        s, y = rng.choice(S), rng.choice(Y)
+        i = m.nodes[s][3] if m.nodes[s][3] != NULL else rng.randrange(len(m.individuals))
+        for u in (s, y):
+            fl, t, p, _, md = m.nodes[u]
+            m.nodes[u] = (fl, t, p, i, md)
+        a, b = other_list.index(y), other_list.index(s)
+        if a > b:
+            other_list[a], other_list[b] = other_list[b], other_list[a]
     # With add_populations=False population ids of other are used verbatim in self: both sides keep the whole
     # population table so that the ids mean the same thing.
     reorder = add_pops and rng.random() < 0.7
     sm = ref_sort(ref_subset(m, self_list, reorder_populations=reorder, remove_unreferenced=reorder))
-    om = ref_sort(ref_subset(m, other_list, reorder_populations=reorder, remove_unreferenced=reorder))
-    pos_in_self = {u: k for k, u in enumerate(self_list)}
-    Sset = set(S)
-    mapping = [pos_in_self[u] if u in Sset else NULL for u in other_list]
-    shared_other_ids = [k for k, u in enumerate(other_list) if u in Sset]
+    alias = mode == "alias"
+    if alias:
+        # union(other=self): `other` is "another table collection" in the docs; the same object is the extreme
+        # case of two collections sharing everything.  EITHER refused with an error or equal to the reference.
+        variant = rng.choice(["tables", "ll"])
+        om = sm
+        p_id = rng.choice([0.0, 0.5, 0.9, 1.0])
+        mapping = [k if rng.random() < p_id else NULL for k in range(len(sm.nodes))]
+        shared_other_ids = [k for k in range(len(sm.nodes)) if mapping[k] != NULL]
+    else:
+        om = ref_sort(ref_subset(m, other_list, reorder_populations=reorder, remove_unreferenced=reorder))
+        pos_in_self = {u: k for k, u in enumerate(self_list)}
+        Sset = set(S)
+        mapping = [pos_in_self[u] if u in Sset else NULL for u in other_list]
+        shared_other_ids = [k for k, u in enumerate(other_list) if u in Sset]
     perturbed = None
-    if rng.random() < 0.35:
+    if not alias and mode != "badmap" and rng.random() < 0.35:
         pr = perturb_shared(rng, om, shared_other_ids)
         if pr is not None:
             perturbed, om = pr
+    bad_map = None
+    call_mapping = mapping
+    if mode == "badmap":
+        ns = len(sm.nodes)
+        bad_map = rng.choice(BAD_MAPS)
+        call_mapping = list(mapping)
+        if bad_map == "dup-target" and len(shared_other_ids) < 2:
+            bad_map = "too-large"
+        if bad_map in ("too-large", "below-null", "not-int32") and not call_mapping:
+            bad_map = "too-long"
+        if bad_map == "too-large":
+            call_mapping[rng.randrange(len(call_mapping))] = rng.choice([ns, ns, ns + 1, ns + 1000, 2 ** 31 - 1])
+        elif bad_map == "below-null":
+            call_mapping[rng.randrange(len(call_mapping))] = rng.choice([-2, -2, -3, -2 ** 31])
+        elif bad_map == "not-int32":
+            call_mapping[rng.randrange(len(call_mapping))] = rng.choice([2 ** 31, -2 ** 31 - 1, 2 ** 40, 2 ** 32,
+                                                                          2 ** 32 - 1])
+        elif bad_map == "too-short":
+            if call_mapping:
+                del call_mapping[rng.randrange(len(call_mapping))]
+            else:
+                bad_map = "too-long"
+        if bad_map == "too-long":
+            call_mapping.insert(rng.randint(0, len(call_mapping)), rng.choice([NULL, 0 if ns else NULL]))
+        if bad_map == "dup-target":
+            a, b = rng.sample(shared_other_ids, 2)
+            call_mapping[a] = call_mapping[b]
     ctx.feature(f"union:{variant}")
+    ctx.feature(f"union:mode:{mode}")
     ctx.feature(f"union:add_populations={int(add_pops)},check={int(check_shared)}")
     ctx.feature(f"union:shared={'0' if not S else 'some'},new={'0' if not Y else 'some'},own={'0' if not X else 'some'}")
     if perturbed:
         ctx.feature(f"union:perturbed:{perturbed}")
+    both, new_first = individual_sharing(om, mapping)
+    if both:
+        ctx.feature("union:individual-owns-shared-and-new-node")
+    if new_first:
+        ctx.feature("union:individual-owns-shared-and-new-node(new-first)")
     for t in m.tags:
         ctx.feature(t)
     _sig(ctx, case, ("union", m.signature(), tuple(self_list), tuple(other_list), add_pops, check_shared, variant,
-             perturbed), nontrivial=bool(Y) and (len(om.edges) > 0 or len(om.mutations) > 0))
-    detail = {"self": sm.to_json(), "other": om.to_json(), "node_mapping": mapping,
-              "add_populations": add_pops, "check_shared_equality": check_shared, "variant": variant,
-              "perturbed": perturbed}
-    if case["k"] < 20:
-        ctx.sample({"case": case, **detail})
-    kw = dict(check_shared_equality=check_shared, add_populations=add_pops, record_provenance=record)
-    if rng.random() < 0.5:
-        kw = {k: v for k, v in kw.items() if not v}   # all three default to True
-        ctx.feature("union:defaults-omitted")
-    stc, otc = to_tables(sm, with_index=rng.random() < 0.5), to_tables(om, with_index=rng.random() < 0.5)
+                     perturbed, mode, tuple(call_mapping)),
+         nontrivial=(bool(Y) or alias) and (len(om.edges) > 0 or len(om.mutations) > 0))
+    stc = to_tables(sm, with_index=rng.random() < 0.5)
+    if alias:
+        otc = stc
+    else:
+        with_index = rng.random() < 0.5
+        try:
+            otc = to_tables(om, with_index=with_index)
+        except LIBERR:
+            otc = to_tables(om)      # a node-time perturbation can make the edges unindexable
+    decorated = rng.random() < 0.35
+    if decorated:
+        params = ext.top_params(rng)
+        ext.decorate_top(stc, params)
+        if not alias:
+            ext.decorate_top(otc, params)
+        ctx.feature("union:schemas/top-level-data-present")
+    top_before = ext.top_snapshot(stc)
     if variant == "ts":
-        # an edge-interval / removed-edge perturbation keeps `other` a valid tree sequence (sub-structure)
-        otc.tree_sequence()  # a failure here is an error of the reference subset, not a verdict
-        stc.tree_sequence()
-    other_before = from_tables(otc).signature()
-    res, err = call_union(variant, stc, otc, mapping, kw, as_array=rng.choice([0, 0, 1, 2]))
-    if from_tables(otc).signature() != other_before:
-        ctx.violation("union/other-modified", "union modified `other`", detail)
+        stc.tree_sequence()      # a failure here is an error of the reference subset, not a verdict
+        try:
+            otc.tree_sequence()
+        except LIBERR:
+            if not perturbed:
+                raise
+            # node-time / mutation-time / site-position perturbations: integrity holds, validity does not
+            variant = "tables"
+            ctx.feature("union:perturbed-other-not-a-tree-sequence(tables entry point)")
+    other_valid = True
+    if perturbed and variant != "ts":
+        try:
+            otc.tree_sequence()
+        except LIBERR:
+            other_valid = False
+    map_form, marg = ext.id_array_form(rng, call_mapping, lowlevel=(variant == "ll"))
+    ctx.feature(f"union:mapping-as:{map_form}")
+    detail = {"self": sm.to_json() if len(sm.nodes) <= 64 else "<big: replay>",
+              "other": om.to_json() if len(om.nodes) <= 64 else "<big: replay>", "node_mapping": call_mapping,
+              "add_populations": add_pops, "check_shared_equality": check_shared, "variant": variant,
+              "perturbed": perturbed, "mode": mode, "mapping_form": map_form, "decorated": decorated}
+    if mode == "wide":
+        detail["self"] = detail["other"] = "<wide: replay>"
+    if case["k"] < 20 and mode in ("std", "ll", "chain"):
+        ctx.sample({"case": case, **detail})
+    other_before = None if alias else from_tables(otc).signature()
+    tag = rng.choice(ext.UNION_FORMS["ll" if variant == "ll" else "py"])
+    ctx.feature(f"union:call:{tag}")
+    detail["call_form"] = tag
+    what = (f"union(node_mapping={_short(call_mapping)} as {map_form}, add_populations={add_pops}, "
+            f"check_shared_equality={check_shared}) [{variant}/{tag}{'/other is self' if alias else ''}]")
+    if alias:
+        # in a forked child: the result comes back through a file, a sanitizer abort as a description
+        import os
+        import tempfile
+        fd, path = tempfile.mkstemp(prefix="verif-c14-alias-", suffix=".trees")
+        os.close(fd)
+
+        def child():
+            _, r_, _, e_ = do_union(rng, variant, stc, stc, marg, check_shared, add_pops, record, tag=tag)
+            if e_ is None:
+                r_.dump(path)
+            return None if e_ is None else (type(e_).__name__, str(e_))
+
+        try:
+            status, value, report = ext.run_forked(child)
+            res, res_ts, err = None, None, None
+            if status == "ok" and value is None:
+                res = tskit.TableCollection.load(path)
+            elif status == "ok":
+                err = TypeError(value[1]) if value[0] == "TypeError" else tskit.LibraryError(f"{value[0]}: {value[1]}")
+        finally:
+            os.unlink(path)
+        ctx.count("union:alias-call")
+        if status == "timeout":
+            ctx.count("union:alias-child-timeout(no verdict)")
+            return
+        if status == "died":
+            ctx.violation(f"union-alias/crash/{value}",
+                          f"{what} on a collection of {len(sm.nodes)} nodes killed the process ({value}); "
+                          f"self = {json.dumps(sm.to_json())[:700]}", {**detail, "report": report})
+            return
+    else:
+        _, res, res_ts, err = do_union(rng, variant, stc, otc, marg, check_shared, add_pops, record, tag=tag)
+    if other_before is not None and from_tables(otc).signature() != other_before:
+        ctx.violation("union/other-modified", f"{what} modified `other`", detail)
+    if bad_map:
+        if bad_map == "dup-target":
+            ctx.count("union:two-nodes-mapped-to-one(either)")   # undocumented: memory safety only
+            return
+        ctx.count("union:bad-node-mapping-rejected")
+        ctx.feature(f"union:bad-map:{bad_map}")
+        if err is None:
+            ctx.violation(f"union/bad-node-mapping-accepted/{bad_map}",
+                          f"{what} on {len(sm.nodes)} self nodes and {len(om.nodes)} other nodes returned; every "
+                          f"entry must be NULL or a node id of self, one per node of other", detail)
+        return
+    if isinstance(err, TypeError) and map_form not in ext.STRICT_FORMS:
+        ctx.count("union:exotic-mapping-array-refused(either)")
+        return
     if perturbed and check_shared:
         ctx.count("union:refusal")
         if err is None:
             ctx.violation("union/differing-shared-part-accepted",
-                          f"other's shared portion differs ({perturbed}) but union(check_shared_equality=True) "
-                          f"returned", detail)
+                          f"other's shared portion differs ({perturbed}) but {what} returned", detail)
         return
-    exp, either = ref_union(sm, om, mapping, add_populations=add_pops)
-    if either:
-        ctx.count("union:either-zone-parent-order")  # E4
+    if perturbed and (not other_valid or perturbed == "node-individual"):
+        # E8: outside the quantifier (other is not a valid tree sequence / a shared node refers to another
+        # individual than in self) and unchecked: memory safety only
+        ctx.count("union:perturbed-inconsistent-unchecked(either)")
+        return
+    if alias and err is not None and not isinstance(err, TypeError):
+        ctx.count("union:alias-refused(either)")
         return
     if err is not None:
-        ctx.violation("union/raised", f"union(mapping={mapping}, {kw}) raised {err}", detail)
+        if ref_union(sm, om, mapping, add_populations=add_pops)[1]:
+            ctx.count("union:either-zone-parent-order")  # E4: may raise
+            return
+        ctx.violation("union/raised", f"{what} raised {type(err).__name__}: {err}", detail)
         return
-    got, bad = read_back(res)
-    ctx.count("union:ref")
-    if bad:
-        ctx.violation("union/broken-offsets", f"ragged columns broken {bad}", detail)
+    if alias:
+        ctx.count("union:alias-result")
+    got = check_union_result(ctx, "union-alias" if alias else "union", res, sm, om, mapping, add_pops,
+                             check_shared, variant, record, top_before, detail, what)
+    if got is None or mode != "chain":
         return
-    ctx.count("union:index-consistent")
-    msg = stale_index(res)
-    if msg:
-        ctx.violation("union/stale-index", f"union(node_mapping={mapping}, {kw}) [{variant}]: {msg}", detail)
-    cands = [exp, ref_union(sm, om, mapping, add_populations=add_pops, parent_mode="drop")[0]]
-    d = best_match(got, cands)
-    for name, msg in d[:3]:
-        ctx.violation(f"union/{name}", f"union(node_mapping={mapping}, add_populations={add_pops}, "
-                                       f"check_shared_equality={check_shared}) [{variant}] {name}: {msg}", detail)
-    extra = {"node_mapping": mapping}
-    check_provenance(ctx, "union", sm.provenances, got.provenances, record, "union", extra)
-    if not d:
-        ctx.count("union:loads")
-        try:
-            res.tree_sequence()
-        except LIBERR as e:
-            ctx.violation("union/result-does-not-load", f"union result rejected: {e}", detail)
+    # ---- the same object again (d): a second union into the collection / tree sequence the first one produced.
+    # Unchecked (the first union does not contain the edges between self-only and new nodes, so the shared
+    # portions rightly differ): purely the documented additions.
+    ctx.count("union:chain")
+    new_ids = [k for k in range(len(other_list)) if mapping[k] == NULL]
+    result_src = self_list + [other_list[k] for k in new_ids]
+    pos_in_res = {u: k for k, u in enumerate(result_src)}
+    if rng.random() < 0.4:
+        om2, list3 = om, other_list        # the same `other` once more: nothing is new any longer
+        ctx.feature("union:chain:same-other-again")
+    else:
+        rest = [u for u in range(len(m.nodes)) if u not in pos_in_res]
+        list3 = rng.sample(result_src, rng.randint(0, len(result_src))) + rest
+        rng.shuffle(list3)
+        om2 = ref_sort(ref_subset(m, list3, reorder_populations=reorder, remove_unreferenced=reorder))
+        ctx.feature("union:chain:third-part")
+    mapping2 = [pos_in_res.get(u, NULL) for u in list3]
+    add_pops2 = True if reorder else rng.random() < 0.5
+    record2 = rng.random() < 0.5
+    otc2 = to_tables(om2, with_index=rng.random() < 0.5)
+    if decorated:
+        ext.decorate_top(otc2, params)
+    form2, marg2 = ext.id_array_form(rng, mapping2, lowlevel=(variant == "ll"))
+    top2 = ext.top_snapshot(res)
+    tag2, res2, _, err2 = do_union(rng, variant, res, otc2, marg2, False, add_pops2, record2, sts=res_ts)
+    what2 = (f"second union(node_mapping={_short(mapping2)} as {form2}, add_populations={add_pops2}, "
+             f"check_shared_equality=False) [{variant}/{tag2}] into the result of {what}")
+    detail2 = {"self": got.to_json() if len(got.nodes) <= 64 else "<big>", "other": om2.to_json()
+               if len(om2.nodes) <= 64 else "<big>", "node_mapping": mapping2, "add_populations": add_pops2,
+               "first_call": detail}
+    if isinstance(err2, TypeError) and form2 not in ext.STRICT_FORMS:
+        ctx.count("union:exotic-mapping-array-refused(either)")
+        return
+    if err2 is not None:
+        if ref_union(got, om2, mapping2, add_populations=add_pops2)[1]:
+            ctx.count("union:either-zone-parent-order")
+            return
+        ctx.violation("union-chain/raised", f"{what2} raised {type(err2).__name__}: {err2}", detail2)
+        return
+    check_union_result(ctx, "union-chain", res2, got, om2, mapping2, add_pops2, False, variant, record2, top2,
+                       detail2, what2)
 
 
 # --------------------------------------------------------------------------- split / rejoin law
 
 
-def law_precondition(m, A, B, C):
-    """Reasons why the split/rejoin law does NOT apply to the cover (A shared, B, C); [] if it applies."""
+def law_precondition(m, A, B, C, populations=True):
+    """Reasons why the split/rejoin law does NOT apply to the cover (A shared, B, C); [] if it applies.
+    populations=False: the rejoin keeps population ids (reorder_populations=False, add_populations=False), so
+    populations may be referenced from anywhere."""
     A, B, C = set(A), set(B), set(C)
     why = []
     if (A | B | C) != set(range(len(m.nodes))) or (A & B) or (A & C) or (B & C):
@@ -968,15 +1490,16 @@ def law_precondition(m, A, B, C):
             if (in_self and not (pp & {"A", "B"})) or (in_other and not (pp & {"A", "C"})):
                 why.append("individual parent link crosses the parts")
                 break
-    pop_by = {}
-    for u, nd in enumerate(m.nodes):
-        if nd[2] != NULL:
-            pop_by.setdefault(nd[2], set()).add("A" if u in A else ("B" if u in B else "C"))
-    for p, parts in pop_by.items():
-        if "C" in parts and len(parts) > 1:
-            # union(add_populations=True) gives the new nodes new populations
-            why.append("population of a C node referenced elsewhere")
-            break
+    if populations:
+        pop_by = {}
+        for u, nd in enumerate(m.nodes):
+            if nd[2] != NULL:
+                pop_by.setdefault(nd[2], set()).add("A" if u in A else ("B" if u in B else "C"))
+        for p, parts in pop_by.items():
+            if "C" in parts and len(parts) > 1:
+                # union(add_populations=True) gives the new nodes new populations
+                why.append("population of a C node referenced elsewhere")
+                break
     if m.migrations:
         why.append("migrations")
     return why
@@ -988,23 +1511,31 @@ def make_independent(rng, m):
     below-cut nodes under 'joined by an edge'."""
     n = len(m.nodes)
     times = sorted({nd[1] for nd in m.nodes})
-    cut = rng.choice(times + [times[0] - 1])
-    A = [u for u in range(n) if m.nodes[u][1] > cut]
-    R = [u for u in range(n) if m.nodes[u][1] <= cut]
-    comp = {u: u for u in R}
+    # (f) a cover with B or C empty makes the law nearly vacuous: up to four cuts are tried for one that leaves at
+    # least two components below it, and the first two components go to different sides
+    for attempt in range(4):
+        cut = rng.choice(times + [times[0] - 1])
+        A = [u for u in range(n) if m.nodes[u][1] > cut]
+        R = [u for u in range(n) if m.nodes[u][1] <= cut]
+        comp = {u: u for u in R}
 
-    def find(u):
-        while comp[u] != u:
-            comp[u] = comp[comp[u]]
-            u = comp[u]
-        return u
+        def find(u):
+            while comp[u] != u:
+                comp[u] = comp[comp[u]]
+                u = comp[u]
+            return u
 
-    Rset = set(R)
-    for l, r, p, c, md in m.edges:
-        if p in Rset and c in Rset:
-            comp[find(p)] = find(c)
-    roots = sorted({find(u) for u in R})
+        Rset = set(R)
+        for l, r, p, c, md in m.edges:
+            if p in Rset and c in Rset:
+                comp[find(p)] = find(c)
+        roots = sorted({find(u) for u in R})
+        if len(roots) >= 2 or rng.random() < 0.15:
+            break
     side = {r_: rng.choice("BC") for r_ in roots}
+    if len(roots) >= 2 and rng.random() < 0.85:
+        a, b = rng.sample(roots, 2)
+        side[a], side[b] = "B", "C"
     B = [u for u in R if side[find(u)] == "B"]
     C = [u for u in R if side[find(u)] == "C"]
     Aset, Bset, Cset = set(A), set(B), set(C)
@@ -1014,11 +1545,12 @@ def make_independent(rng, m):
     ityp = [rng.choice("abcu") for _ in range(nind)]
     ptyp = [rng.choice("xxc") for _ in range(npop)]   # x: A/B nodes only; c: C nodes only
     by_t = lambda typ, ch: [i for i, t in enumerate(typ) if t in ch]  # noqa: E731
+    icands = {"A": by_t(ityp, "a"), "B": by_t(ityp, "ab"), "C": by_t(ityp, "ac")}
+    pcands = {"A": by_t(ptyp, "x"), "B": by_t(ptyp, "x"), "C": by_t(ptyp, "c")}
     nodes = []
     for u, (fl, t, p, i, md) in enumerate(m.nodes):
         part = "A" if u in Aset else ("B" if u in Bset else "C")
-        icand = by_t(ityp, "a" if part == "A" else ("ab" if part == "B" else "ac"))
-        pcand = by_t(ptyp, "c" if part == "C" else "x")
+        icand, pcand = icands[part], pcands[part]
         i = rng.choice(icand) if icand and rng.random() < 0.6 else NULL
         p = rng.choice(pcand) if pcand and rng.random() < 0.7 else NULL
         nodes.append((fl, t, p, i, md))
@@ -1057,25 +1589,34 @@ def make_independent(rng, m):
 def has_individual_cycle(m):
     n = len(m.individuals)
     state = [0] * n
-
-    def visit(i):
-        if state[i] == 1:
-            return True
-        if state[i] == 2:
-            return False
-        state[i] = 1
-        for p in m.individuals[i][2]:
-            if p != NULL and visit(p):
-                return True
-        state[i] = 2
-        return False
-
-    return any(visit(i) for i in range(n))
+    for start in range(n):
+        if state[start]:
+            continue
+        stack = [(start, iter(m.individuals[start][2]))]
+        state[start] = 1
+        while stack:
+            i, it = stack[-1]
+            for p in it:
+                if p == NULL:
+                    continue
+                if state[p] == 1:
+                    return True
+                if state[p] == 0:
+                    state[p] = 1
+                    stack.append((p, iter(m.individuals[p][2])))
+                    break
+            else:
+                state[i] = 2
+                stack.pop()
+    return False
 
 
 def run_law(case, ctx):
     rng = case_rng(case)
-    m = base_model(rng, big=rng.random() < 0.25, tier=case["tier"])
+    mode = case.get("mode", "std")
+    if mode == "huge":
+        return run_law_huge(case, ctx, rng)
+    m = mode_model(rng, case, ctx, 0.25)
     if not m.individuals and not m.populations and rng.random() < 0.5:
         gen.decorate_pops_inds(rng, m, npop=rng.randint(1, 4), nind=rng.randint(1, 5))
     cut, A, B, C = make_independent(rng, m)
@@ -1083,14 +1624,22 @@ def run_law(case, ctx):
         # canonicalise (inside the shared-equality check and at the end) needs acyclic individual parents
         m.individuals = [(fl, loc, tuple(p for p in par if p == NULL or p < i), md)
                          for i, (fl, loc, par, md) in enumerate(m.individuals)]
-    why = law_precondition(m, A, B, C)
+    # (d) the quantifier also names add_populations=False: then both parts keep the population table untouched
+    # (reorder_populations=False) and population ids are carried over verbatim, so populations may be shared
+    # between the parts in any way
+    add_pops = rng.random() < 0.6
+    if not add_pops and m.populations and rng.random() < 0.7:
+        m.nodes = [(fl, t, rng.choice([NULL] + list(range(len(m.populations)))), i, md)
+                   for fl, t, p, i, md in m.nodes]
+        ctx.feature("law:populations-shared-between-parts(add_populations=False)")
+    why = law_precondition(m, A, B, C, populations=add_pops)
     ctx.count("law:precondition-evaluated")
     if why:
         ctx.count("law:precondition-failed(skipped)")
         ctx.feature("law:skip:" + why[0])
         _sig(ctx, case, None, nontrivial=False)
         return
-    variant = rng.choice(["tables", "ts"])
+    variant = "ll" if mode == "ll" else rng.choice(["tables", "ts"])
     self_list = A + B
     other_list = A + C
     rng.shuffle(self_list)
@@ -1100,6 +1649,8 @@ def run_law(case, ctx):
     mapping = [pos_in_self[u] if u in Aset else NULL for u in other_list]
     order = self_list + [u for u in other_list if u not in Aset]
     ctx.feature(f"law:{variant}")
+    ctx.feature(f"law:mode:{mode}")
+    ctx.feature(f"law:add_populations={int(add_pops)}")
     ctx.feature(f"law:A={'0' if not A else 'n'},B={'0' if not B else 'n'},C={'0' if not C else 'n'}")
     if any(nd[3] != NULL for nd in m.nodes):
         ctx.feature("law:individuals")
@@ -1107,35 +1658,66 @@ def run_law(case, ctx):
         ctx.feature("law:populations")
     for t in m.tags:
         ctx.feature(t)
-    _sig(ctx, case, ("law", m.signature(), tuple(self_list), tuple(other_list), variant),
-            nontrivial=bool(B) and bool(C) and len(m.edges) > 0)
-    detail = {"model": m.to_json(), "cut": cut, "A": A, "B": B, "C": C, "self_nodes": self_list,
-              "other_nodes": other_list, "node_mapping": mapping, "variant": variant}
-    if case["k"] < 30:
+    _sig(ctx, case, ("law", m.signature(), tuple(self_list), tuple(other_list), variant, add_pops),
+         nontrivial=bool(B) and bool(C) and len(m.edges) > 0)
+    detail = _detail(m, cut=cut, A=A, B=B, C=C, self_nodes=self_list, other_nodes=other_list,
+                     node_mapping=mapping, variant=variant, add_populations=add_pops)
+    if case["k"] < 30 and mode in ("std", "ll"):
         ctx.sample({"case": case, **detail})
     check_shared = rng.random() < 0.8
+    reorder = add_pops
+    params = ext.top_params(rng) if rng.random() < 0.3 else None
+    low = variant == "ll"
+    f1, a1 = ext.id_array_form(rng, self_list, lowlevel=low)
+    f2, a2 = ext.id_array_form(rng, other_list, lowlevel=low)
+    f3, a3 = ext.id_array_form(rng, mapping, lowlevel=low)
+    detail["forms"] = [f1, f2, f3]
+    for f in (f1, f2, f3):
+        if f not in ext.STRICT_FORMS:
+            ctx.feature("law:exotic-id-array")
+            break
     try:
+        tc1 = to_tables(m)
+        if params:
+            ext.decorate_top(tc1, params)
+        top_before = ext.top_snapshot(tc1)
         if variant == "ts":
-            ts = to_tables(m).tree_sequence()
-            t1 = ts.subset(self_list)
-            t2 = ts.subset(other_list)
-            res = t1.union(t2, mapping, check_shared_equality=check_shared, add_populations=True).dump_tables()
+            ts = tc1.tree_sequence()
+            t1 = ext.subset_call(rng, rng.choice(ext.SUBSET_FORMS["ts"]), "ts", ts, a1, True, reorder, True)
+            t2 = ext.subset_call(rng, rng.choice(ext.SUBSET_FORMS["ts"]), "ts", ts, a2, True, reorder, True)
+            res = ext.union_call(rng, rng.choice(ext.UNION_FORMS["py"]), "ts", t1, t2, a3, check_shared, add_pops,
+                                 True).dump_tables()
         else:
-            res = to_tables(m)
-            oth = to_tables(m)
-            res.subset(self_list)
-            oth.subset(other_list)
-            res.union(oth, mapping, check_shared_equality=check_shared, add_populations=True)
+            res = tc1
+            oth = tc1.copy()
+            v = "ll" if low else "tables"
+            for tcx, ax in ((res, a1), (oth, a2)):
+                ext.subset_call(rng, rng.choice(ext.SUBSET_FORMS[v]), v, tcx._ll_tables if low else tcx, ax, True,
+                                reorder, True)
+            ext.union_call(rng, rng.choice(ext.UNION_FORMS["ll" if low else "py"]), v,
+                           res._ll_tables if low else res, oth._ll_tables if low else oth, a3, check_shared,
+                           add_pops, True)
+    except TypeError as e:
+        if all(f in ext.STRICT_FORMS for f in (f1, f2, f3)):
+            ctx.count("law:rejoin")
+            ctx.violation("law/raised", f"split/rejoin of independent parts raised TypeError {e}", detail)
+        else:
+            ctx.count("law:exotic-id-array-refused(either)")
+        return
     except LIBERR as e:
         ctx.count("law:rejoin")
-        ctx.violation("law/raised", f"split/rejoin of independent parts raised {e}", detail)
+        ctx.violation("law/raised", f"split/rejoin of independent parts (add_populations={add_pops}, "
+                                    f"check_shared_equality={check_shared}) [{variant}] raised {e}", detail)
         return
     ctx.count("law:rejoin")
     bad = bad_offsets(res)
     if bad:
         ctx.violation("law/broken-offsets", f"ragged columns broken {bad}", detail)
         return
+    check_top(ctx, "law", top_before, res, "subset, subset, union")
     exp = to_tables(permute_nodes(m, order))
+    if params:
+        ext.decorate_top(exp, params)
     try:
         res.canonicalise()
         exp.canonicalise()
@@ -1145,14 +1727,16 @@ def run_law(case, ctx):
     gm, em = from_tables(res), from_tables(exp)
     d = diff_models(gm, em)
     for name, msg in d[:3]:
-        ctx.violation(f"law/{name}", f"union(subset(A+B), subset(A+C)) canonicalised differs from the original "
-                                     f"canonicalised in {name}: {msg}", detail)
+        ctx.violation(f"law/{name}", f"union(subset(A+B), subset(A+C), add_populations={add_pops}) [{variant}] "
+                                     f"canonicalised differs from the original canonicalised in {name}: {msg}",
+                      detail)
     ctx.count("law:assert_equals")
     try:
         res.assert_equals(exp, ignore_provenance=True)
-    except AssertionError as e:
+    except Exception as e:  # noqa: BLE001  (AssertionError; decoding a differing row for the message may fail too)
         if not d:
-            ctx.violation("law/assert_equals", f"assert_equals(ignore_provenance=True) fails: {str(e)[:300]}", detail)
+            ctx.violation("law/assert_equals", f"assert_equals(ignore_provenance=True) fails: "
+                                               f"{type(e).__name__} {str(e)[:300]}", detail)
     # independent of canonicalise(): the same rejoin against the Python reference canonical content
     ctx.count("law:content")
     base = ref_sort(ref_subset(permute_nodes(m, order), list(range(len(order)))))
@@ -1165,3 +1749,52 @@ def run_law(case, ctx):
     if strip(gm) != strip(base):
         ctx.violation("law/content-mutations", "mutations of the rejoined collection differ from the original: "
                       + _first_diff(strip(gm), strip(base)), detail)
+
+
+def run_law_huge(case, ctx, rng):
+    """Split / rejoin with more than 65535 NEW nodes, individuals, populations, sites and mutations; raw numpy
+    columns compared after canonicalise() on both sides."""
+    import numpy as np
+    g = np.random.default_rng(rng.getrandbits(63))
+    c = ext.huge_columns(g, law=True)
+    part = c["part"]
+    N = len(part)
+    ids = np.arange(N)
+    self_list = g.permutation(ids[part != 2])
+    other_list = g.permutation(ids[part != 1])
+    pos_in_self = np.full(N, -1, dtype=np.int64)
+    pos_in_self[self_list] = np.arange(len(self_list))
+    mapping = np.where(part[other_list] == 0, pos_in_self[other_list], -1).astype(np.int32)
+    order = np.concatenate([self_list, other_list[part[other_list] == 2]])
+    check_shared = rng.random() < 0.6
+    ctx.feature("law:mode:huge")
+    ctx.feature(f"law:huge:check={int(check_shared)}")
+    _sig(ctx, case, ("law-huge", N, int(self_list[0]), check_shared), nontrivial=True)
+    what = (f"union(subset(A+B), subset(A+C)) with {int((mapping == -1).sum())} new nodes, tables with > 65535 "
+            f"rows each (numpy seed from the case), check_shared_equality={check_shared}")
+    t1, t2 = ext.columns_to_tables(c), ext.columns_to_tables(c)
+    try:
+        t1.subset(self_list.astype(np.int32), record_provenance=False)
+        t2.subset(other_list.astype(np.int32), record_provenance=False)
+        t1.union(t2, mapping, check_shared_equality=check_shared, record_provenance=False)
+    except CALL_ERRORS as e:
+        ctx.count("law:huge-rejoin")
+        ctx.violation("law-huge/raised", f"{what} raised {type(e).__name__}: {e}")
+        return
+    ctx.count("law:huge-rejoin")
+    bad = ext.bad_offsets_np(t1)
+    if bad:
+        ctx.violation("law-huge/broken-offsets", f"{what}: ragged columns broken {bad}")
+        return
+    exp = ext.columns_to_tables(ext.relabel_nodes_columns(c, order))
+    try:
+        t1.canonicalise()
+        exp.canonicalise()
+    except LIBERR as e:
+        ctx.violation("law-huge/canonicalise-raised", f"canonicalise raised {e}")
+        return
+    for name in ext.FIXED_COLS:
+        msg = ext.columns_diff(ext.table_columns(t1, name), ext.table_columns(exp, name), name)
+        if msg:
+            ctx.violation(f"law-huge/{name}", f"{what}: canonicalised result differs from the canonicalised "
+                                              f"original: {msg}")
